@@ -31,7 +31,17 @@ def to_pointer(tokens):
 
 def run(resolver, exceptions, doc, frag):
     try:
-        return ("value", resolver.resolve_fragment(doc, frag))
+        direct = ("value", resolver.resolve_fragment(doc, frag))
+        # the same fragment through a reference: resolve("#" + fragment) on a resolver whose referrer is the document
+        from jsonschema import validators
+        r2 = validators.RefResolver("", doc)
+        try:
+            via = ("value", r2.resolve("#" + frag)[1])
+        except exceptions.RefResolutionError:
+            via = ("error",)
+        if "#" not in frag and via != direct and not (via[0] == "value" and direct[0] == "value" and via[1] == direct[1]):
+            return ("mismatch", "resolve('#%s') gives %r, resolve_fragment gives %r" % (frag, via, direct))
+        return direct
     except exceptions.RefResolutionError:
         return ("error",)
     except Exception as e:      # noqa
